@@ -182,7 +182,9 @@ def _scales(x, P, z, H, R):
     e = z - H @ x
     ne = _norm(e)
     dim = n + m
-    dK = EPS * cS * nK * dim
+    smin_S = max(float(np.linalg.eigvalsh(S)[0]), 1e-300)
+    # error of K = (S^-1 H P)^T: rounding of H P and of S (absolute), and of the Cholesky solve (relative cond S)
+    dK = EPS * dim * ((nH * nP + (nH * nH * nP + nR) * nK) / smin_S + cS * nK)
     joseph = (1 + nK * nH) ** 2 * nP + nK ** 2 * nR
     b_cov = EPS * dim * joseph + 2 * dK * (nH * nP * (1 + nK * nH) + nR * nK) + dK * dK * (nH * nH * nP + nR)
     b_mean = dK * ne + EPS * dim * (_norm(x) + nK * (ne + nH * _norm(x) + _norm(z)))
